@@ -833,13 +833,18 @@ func (fr *Frame) invokeAbstract(st *State, site ssa.Instruction, iv *IfaceV, cc 
 	if r, ok := fr.ifaceIntrinsic(st, site, iv, cc, args); ok {
 		return r
 	}
+	if fr.top {
+		// interface calls are visible to cut anchors like any other call (callarg0 is the interface value)
+		st.srcVar["callarg0"] = iv
+		st.srcAdr["callarg0"] = false
+		for i, a := range args {
+			st.srcVar[fmt.Sprintf("callarg%d", i+1)] = a
+			st.srcAdr[fmt.Sprintf("callarg%d", i+1)] = false
+		}
+		fr.anchor(st, "beforecall", cc.Method.Name(), -1)
+	}
 	if r, ok := fr.ifaceContract(st, site, iv, cc, args); ok {
 		if fr.top {
-			// interface calls with an assumed contract are visible to cut anchors like any other call
-			for i, a := range args {
-				st.srcVar[fmt.Sprintf("callarg%d", i+1)] = a
-				st.srcAdr[fmt.Sprintf("callarg%d", i+1)] = false
-			}
 			fr.bindCallResult(st, r)
 			fr.anchor(st, "call", cc.Method.Name(), -1)
 		}
@@ -1135,7 +1140,9 @@ func (fr *Frame) appendBuiltin(st *State, site ssa.Instruction, cc *ssa.CallComm
 	fr.v.appendNote(fr, st, dst)
 	fr.v.fresh++
 	ncap := F.FreshRanged("appendcap", big.NewInt(0), bigMaxLen)
-	st.pc = F.And(st.pc, F.Le(nl, ncap))
+	// the language specification: when the result fits in the capacity of dst the backing array is reused, so the
+	// capacity is that of dst; otherwise a sufficiently large array is allocated
+	st.pc = F.And(st.pc, F.Le(nl, ncap), F.Imp(F.Le(nl, dst.Cap), F.Eq(ncap, dst.Cap)))
 	return &SliceV{Obj: o, Off: F.I64(0), Len: nl, Cap: ncap}
 }
 
@@ -1399,7 +1406,7 @@ func specIsBool(e *SpecExpr) bool {
 		case *ast.CallExpr:
 			if id, ok := t.Fun.(*ast.Ident); ok {
 				switch id.Name {
-				case "isnil", "same", "iszero", "fresh", "noescape", "forall", "exists", "hasroot", "lexlargest", "eqmod", "imp":
+				case "isnil", "same", "iszero", "fresh", "iterfresh", "noescape", "bigparseok", "forall", "exists", "hasroot", "lexlargest", "eqmod", "imp":
 					return true
 				}
 				if strings.HasPrefix(id.Name, "ufbool_") {
